@@ -824,3 +824,18 @@ func genStageTokens(repo string) (string, error) {
 	fmt.Fprintf(&b, "Definition StageTokens_translator_ok := %v.\n", ok)
 	return b.String(), nil
 }
+
+// inlineGen returns the text a translator generates from the source tree under check RIGHT NOW, for inclusion in a case
+// shard: a shard then does not depend on coq/Gen/*.vo, which another check running on another copy of the harness may
+// regenerate between this run's `make` and its shards.
+func inlineGen(fn GenFn) string {
+	repo := os.Getenv("VERIF_REPO")
+	if repo == "" {
+		repo = "/repo"
+	}
+	c, err := fn(repo)
+	if err != nil {
+		return "(* translator failed: " + strings.ReplaceAll(err.Error(), "*)", "* )") + " *)\n"
+	}
+	return c
+}
